@@ -26,11 +26,11 @@ import (
 // C10 — group members derive a consistent, collision-free numbering.
 
 type c10Params struct {
-	Actions   []c10Action `json:"actions,omitempty"` // couchbase type: join / leave sequences separated by quiescent periods
-	Hold      string      `json:"hold,omitempty"`    // "" | "replace" (hold a survivor's monitor round across a death+join) | "cas" (delay one survivor's index rewrite)
+	Actions   []c10Action   `json:"actions,omitempty"`   // couchbase type: join / leave sequences separated by quiescent periods
+	Hold      string        `json:"hold,omitempty"`      // "" | "replace" (hold a survivor's monitor round across a death+join) | "cas" (delay one survivor's index rewrite)
 	Followers []c10Follower `json:"followers,omitempty"` // leader-assigned
-	Static    bool        `json:"static,omitempty"`
-	Dynamic   [][2]int    `json:"dynamic,omitempty"`
+	Static    bool          `json:"static,omitempty"`
+	Dynamic   [][2]int      `json:"dynamic,omitempty"`
 	// DynamicWindow: the first numbering is published exactly while GetInfo() is between its nil check and its
 	// channel receive (the point where it logs "waiting first request")
 	DynamicWindow [2]int `json:"dynamic_window,omitempty"`
@@ -43,9 +43,9 @@ type c10Action struct {
 
 type c10Follower struct {
 	Name         string `json:"name"`
-	JoinAt       int    `json:"join_at"`       // seconds after start
-	PingFailFrom int    `json:"ping_fail_from"` // seconds after start from which pings fail (0 = never)
-	RebalErrors  int    `json:"rebal_errors"`   // the first n Rebalance calls return an error
+	JoinAt       int    `json:"join_at"`              // seconds after start
+	PingFailFrom int    `json:"ping_fail_from"`       // seconds after start from which pings fail (0 = never)
+	RebalErrors  int    `json:"rebal_errors"`         // the first n Rebalance calls return an error
 	RestartAt    int    `json:"restart_at,omitempty"` // seconds after start at which the follower's process is replaced: the old connection is dead from then on, the new process registers under the same name
 }
 
